@@ -41,12 +41,13 @@ def must_see(tier):
                    'delitem', 'pop', 'setdefault', 'minKey', 'maxKey',
                    'keys-range', 'update', 'add', 'remove', 'discard', 'ior',
                    'isub', 'fn:union', 'fn:intersection', 'fn:difference',
-                   'fn:union-list', 'resolve'):
+                   'fn:union-list', 'resolve', 'popitem', 'spop'):
             m['%s:fault:%s' % (impl, op)] = 5
         m[impl + ':fault:delete-leaf-minimum'] = 5
         m[impl + ':fault:delete-emptying-leaf'] = 3
         m[impl + ':outcome:unchanged'] = 100
         m[impl + ':outcome:completed'] = 20
+        m[impl + ':typeerror-fault-reached-caller'] = 200
     m['c:ledger-checks'] = 1000
     return m
 
@@ -200,6 +201,13 @@ def target_ops(rng, W, m, is_mapping, kind, fam, impl, walk):
         single('delitem', ka, lambda c: c.__delitem__(W.k(ka)), same)
         single('pop', kp, lambda c: c.pop(W.k(kp)), del_eff(kp))
         single('pop', ka, lambda c: c.pop(W.k(ka), None), same)
+        def popitem_eff(mm):
+            a = dict(mm)
+            if a:
+                a.pop(min(a))
+            return [dict(mm), a]
+        if present:
+            single('popitem', None, lambda c: c.popitem(), popitem_eff)
         single('setdefault', ka,
                lambda c: c.setdefault(W.k(ka), W.v(vi)), set_eff(ka, vi))
         single('setdefault', kp,
@@ -231,6 +239,17 @@ def target_ops(rng, W, m, is_mapping, kind, fam, impl, walk):
         single('remove', kp, lambda c: c.remove(W.k(kp)), del_eff(kp))
         single('discard', kp, lambda c: c.discard(W.k(kp)), del_eff(kp))
         single('discard', ka, lambda c: c.discard(W.k(ka)), same)
+
+        def spop_eff(mm):
+            outs = [dict(mm)]
+            for pick in (min, max):
+                a = dict(mm)
+                if a:
+                    a.pop(pick(a))
+                outs.append(a)
+            return outs
+        if present:
+            single('spop', None, lambda c: c.pop(), spop_eff)
         for nm, ki in special:
             single('remove', ki, lambda c, ki=ki: c.remove(W.k(ki)),
                    del_eff(ki))
@@ -281,12 +300,12 @@ def target_ops(rng, W, m, is_mapping, kind, fam, impl, walk):
     single('minKey', b1, lambda c: c.minKey(W.k(b1)), same)
     single('maxKey', b2, lambda c: c.maxKey(W.k(b2)), same)
     single('keys-range', None,
-           lambda c: list(c.keys(W.k(b1), W.k(b2))), same)
+           lambda c: _lst(c.keys(W.k(b1), W.k(b2))), same)
     single('keys-range', None,
-           lambda c: list(c.keys(W.k(b1), W.k(b2), True, True)), same)
+           lambda c: _lst(c.keys(W.k(b1), W.k(b2), True, True)), same)
     if is_mapping:
         single('items-range', None,
-               lambda c: list(c.items(W.k(b1), None, True, True)), same)
+               lambda c: _lst(c.items(W.k(b1), None, True, True)), same)
     # module-level set algebra: the container is an operand, not a target
     oks = [rng.randrange(nk) for _ in range(rng.randint(1, 6))]
     other_kind = rng.choice(['Set', 'TreeSet', 'Bucket', 'BTree'])
@@ -304,15 +323,23 @@ def target_ops(rng, W, m, is_mapping, kind, fam, impl, walk):
             inject.S.armed = False
             o = other(c)
             inject.S.armed = True
-            return list(fam.fn(fname, impl)(c, o).keys())
+            return _lst(fam.fn(fname, impl)(c, o).keys())
         single('fn:' + fname, None, run, same)
     single('fn:union-list', None,
-           lambda c: list(fam.fn('union', impl)(
+           lambda c: _lst(fam.fn('union', impl)(
                c, [W.k(i) for i in oks]).keys()), same)
     single('fn:difference-list', None,
-           lambda c: list(fam.fn('difference', impl)(
+           lambda c: _lst(fam.fn('difference', impl)(
                c, [W.k(i) for i in oks]).keys()), same)
     return ops
+
+
+def _lst(seq):
+    """Materialise a lazy sequence WITHOUT list(): list() first asks for a
+    length hint and CPython's PyObject_LengthHint swallows a TypeError raised
+    by __len__ - which, for the pure-Python lazy sequences, runs key
+    comparisons.  (Seen as a false alarm with TypeError-class faults.)"""
+    return [x for x in seq]
 
 
 def resolve_case(rng, W, fam, impl, is_mapping):
@@ -367,7 +394,12 @@ def run_container(fam, kind, impl, rng, rec, all_n, ci):
     if ci % 7 == 3:
         hops = []            # operations on an empty container
     inject.reset()
-    desc = dict(family=fam.name, kind=kind, impl=impl, sizes=sizes)
+    # every other container: the failing comparison raises a TypeError
+    # subclass, as a real comparison of unorderable keys does
+    boom_t = ci % 2 == 1
+    inject.S.boom = inject.CmpBoomT if boom_t else CmpBoom
+    desc = dict(family=fam.name, kind=kind, impl=impl, sizes=sizes,
+                boom='TypeError' if boom_t else 'Exception')
 
     def rebuild():
         c = fresh(fam, kind, impl, sizes)
@@ -434,9 +466,21 @@ def run_container(fam, kind, impl, rng, rec, all_n, ci):
                      comparisons=N, history=brief(hops, 400),
                      special=special)
             if exc != 'CmpBoom':
+                # F14: the C Bucket get()/[] and Set/TreeSet discard()
+                # translate ANY TypeError into "absent" ("Failed to compare,
+                # so it can't be in the tree"): a comparison failing with a
+                # TypeError never reaches the caller there
+                f14 = (impl == 'c' and boom_t and exc in (None, 'KeyError')
+                       and ((kind == 'Bucket' and name in ('get', 'getitem'))
+                            or (not is_mapping and name == 'discard')))
                 rec.violation('comparison-error-did-not-reach-caller',
-                              observed=exc, **d)
-                continue
+                              observed=exc,
+                              **(dict(d, finding='F14') if f14 else d))
+                if not f14:
+                    continue
+                rec.ev('c:f14-swallowed')
+            elif boom_t:
+                rec.ev(impl + ':typeerror-fault-reached-caller')
             # ---- soundness ------------------------------------------------
             if is_tree:
                 errs, _w = hist.structural_checks(c, is_mapping)
